@@ -31,7 +31,9 @@ type dcGen struct {
 var dcScalars = []string{"int", "string", "bool", "int64", "float64", "byte", "uint32", "int8", "rune"}
 
 // field type expression in package index p; depth-limited
-func (d *dcGen) fieldType(p int, depth int, self string) string {
+func (d *dcGen) fieldType(p int, depth int, self string) string { return d.fieldTypeI(p, depth, self, true) }
+
+func (d *dcGen) fieldTypeI(p int, depth int, self string, allowIface bool) string {
 	g := d.g
 	leaf := func() string {
 		if g.Chance(0.55) {
@@ -41,7 +43,8 @@ func (d *dcGen) fieldType(p int, depth int, self string) string {
 		var cands []string
 		for q := 0; q <= p && q < len(d.pkgs); q++ {
 			for _, t := range d.pkgs[q].Types {
-				if t.Kind == "impl" {
+				// only types that have deep-copy functions (generated or hand-written) or named interfaces
+				if t.Kind == "impl" || !(t.Generated || t.HandCopy || t.Kind == "iface") || (t.Kind == "iface" && !allowIface) {
 					continue
 				}
 				name := t.Name
@@ -66,7 +69,7 @@ func (d *dcGen) fieldType(p int, depth int, self string) string {
 	switch g.R.Intn(6) {
 	case 0:
 		d.classes["pointer"] = true
-		return "*" + d.fieldType(p, depth-1, self)
+		return "*" + d.fieldTypeI(p, depth-1, self, false) // deepcopy-gen does not support pointers to interfaces
 	case 1:
 		d.classes["slice"] = true
 		return "[]" + d.fieldType(p, depth-1, self)
